@@ -72,26 +72,95 @@ Proof.
   f_equal. apply ev_parerr_iff. exists (AMeas k). split; [now apply deps_exact|]. simpl. now rewrite H0.
 Qed.
 
-(* with the whole store handed over, running segment after segment is running the concatenation *)
-Lemma segs_ideal : forall free segs (s : store K),
-  run_segs (@fwd_ideal K) free s segs = run_seg free s (concat segs).
+(* ---------------------------------------------------------------------------------------- *)
+(* the engine's hand-over: running segment after segment is running the concatenation *)
+
+Notation run_segs_old := (@run_segs_old K kadd kmul kdiv kneg kone fn1 fn2).
+
+Lemma store_meas_ext : forall ks vs (s s' : store K),
+  (forall k, s k = s' k) -> forall k, store_meas s ks vs k = store_meas s' ks vs k.
+Proof. intros. rewrite !store_meas_last. now rewrite H. Qed.
+
+Lemma run_seg_ext : forall free h (s s' : store K),
+  (forall k, s k = s' k) ->
+  snd (run_seg free s h) = snd (run_seg free s' h) /\
+  (forall k, fst (run_seg free s h) k = fst (run_seg free s' h) k).
 Proof.
-  intros free. induction segs as [|h rest IH]; intros s; [reflexivity|].
-  simpl concat. rewrite run_seg_app. simpl run_segs.
-  destruct (run_seg free s h) as [s1 o1]. destruct rest as [|h' rest'].
-  - simpl. now rewrite app_nil_r.
-  - rewrite IH. unfold fwd_ideal. destruct (run_seg free s1 (concat (h' :: rest'))); reflexivity.
+  intros free. induction h as [|x h IH]; intros s s' E; simpl; [auto|].
+  destruct x; simpl.
+  - specialize (IH (store_meas s ks vs) (store_meas s' ks vs) (store_meas_ext ks vs s s' E)).
+    destruct (run_seg free (store_meas s ks vs) h), (run_seg free (store_meas s' ks vs) h). exact IH.
+  - specialize (IH s s' E). destruct (run_seg free s h), (run_seg free s' h). exact IH.
+  - specialize (IH s s' E). destruct (run_seg free s h), (run_seg free s' h). simpl in *.
+    destruct IH as [IH1 IH2]. split; [|exact IH2]. rewrite IH1. f_equal. now apply ev_store_ext.
+  - specialize (IH (@empty K) (@empty K) (fun _ => eq_refl)).
+    destruct (run_seg free (@empty K) h). exact IH.
 Qed.
 
-(* the hand-over as written loses a value measured on a mode other than 0 ... *)
-Lemma segs_written_loses : forall free (x : K),
-  run_segs (@fwd_written K) free (@empty K) [[EMeas [1] [[x]]]; [EUse (Meas 1)]] = (upd (@empty K) 0 [x], [ParamErr])
+Lemma mv_meas_lookup : forall ks vs (mv : mvals K) k,
+  mv_lookup (mv_meas mv ks vs) k = last_in ks vs k (mv_lookup mv k).
+Proof.
+  induction ks as [|j ks IH]; intros vs mv k; simpl; [reflexivity|].
+  destruct vs as [|v vs]; [reflexivity|]. rewrite IH. simpl. reflexivity.
+Qed.
+
+(* invariant: the engine's table of latest values agrees with the RegRefs of the running program *)
+Lemma mv_after_store : forall free h (s : store K) (mv : mvals K),
+  (forall k, mv_lookup mv k = s k) ->
+  forall k, mv_lookup (mv_after mv h) k = fst (run_seg free s h) k.
+Proof.
+  intros free. induction h as [|x h IH]; intros s mv E k; simpl; [apply E|].
+  destruct x; simpl.
+  - specialize (IH (store_meas s ks vs) (mv_meas mv ks vs)).
+    destruct (run_seg free (store_meas s ks vs) h) eqn:R. simpl. rewrite IH; [reflexivity|].
+    intros j. rewrite mv_meas_lookup, store_meas_last. now rewrite E.
+  - specialize (IH s mv E k). destruct (run_seg free s h). exact IH.
+  - specialize (IH s mv E k). destruct (run_seg free s h). exact IH.
+  - specialize (IH (@empty K) [] (fun _ => eq_refl) k). destruct (run_seg free (@empty K) h). exact IH.
+Qed.
+
+Lemma handover_is_store : forall (lazy : bool) (s1 : store K) (mv : mvals K),
+  (forall k, mv_lookup mv k = s1 k) ->
+  forall k, handover (if lazy then s1 else @empty K) mv k = s1 k.
+Proof.
+  intros lazy s1 mv E k. unfold handover. rewrite E. destruct (s1 k) eqn:Es; [reflexivity|].
+  destruct lazy; [exact Es | reflexivity].
+Qed.
+
+Lemma segs_general : forall lazy free segs (s s' : store K) (mv : mvals K),
+  (forall k, s k = s' k) -> (forall k, mv_lookup mv k = s k) ->
+  snd (run_segs lazy free s mv segs) = snd (run_seg free s' (concat segs)) /\
+  (forall k, fst (run_segs lazy free s mv segs) k = fst (run_seg free s' (concat segs)) k).
+Proof.
+  intros lazy free. induction segs as [|h rest IH]; intros s s' mv E Emv; [simpl; auto|].
+  simpl concat. rewrite run_seg_app. simpl run_segs.
+  pose proof (run_seg_ext free h s s' E) as [Ho Hs].
+  pose proof (mv_after_store free h s mv Emv) as Hmv.
+  destruct (run_seg free s h) as [s1 o1]. destruct (run_seg free s' h) as [s1' o1']. simpl in *. subst o1'.
+  destruct rest as [|h' rest'].
+  - simpl. split; [now rewrite app_nil_r | exact Hs].
+  - specialize (IH (handover (if lazy then s1 else @empty K) (mv_after mv h)) s1' (mv_after mv h)).
+    destruct IH as [IH1 IH2].
+    + intros k. rewrite handover_is_store by exact Hmv. apply Hs.
+    + intros k. rewrite handover_is_store by exact Hmv. apply Hmv.
+    + destruct (run_segs lazy free (handover (if lazy then s1 else @empty K) (mv_after mv h)) (mv_after mv h) (h' :: rest')) as [s2 o2].
+      destruct (run_seg free s1' (concat (h' :: rest'))) as [s2' o2']. simpl in *. subst o2'. split; [reflexivity | exact IH2].
+Qed.
+
+Lemma segs_concat : forall lazy free segs,
+  snd (run_segs lazy free (@empty K) [] segs) = snd (run_seg free (@empty K) (concat segs)) /\
+  (forall k, fst (run_segs lazy free (@empty K) [] segs) k = fst (run_seg free (@empty K) (concat segs)) k).
+Proof. intros. apply segs_general; reflexivity. Qed.
+
+(* the hand-over as it was before the fix lost a value measured on a mode other than 0 ... *)
+Lemma segs_old_loses : forall free (x : K),
+  run_segs_old free (@empty K) [[EMeas [1] [[x]]]; [EUse (Meas 1)]] = (upd (@empty K) 0 [x], [ParamErr])
   /\ snd (run_seg free (@empty K) (concat [[EMeas [1] [[x]]]; [EUse (Meas 1)]])) = [Ok (S x)].
 Proof. intros. split; reflexivity. Qed.
 
-(* ... and hands mode 0 the outcome of another mode instead of raising *)
-Lemma segs_written_wrong_mode : forall free (x : K),
-  snd (run_segs (@fwd_written K) free (@empty K) [[EMeas [1] [[x]]]; [EUse (Meas 0)]]) = [Ok (S x)]
+(* ... and handed mode 0 the outcome of another mode instead of raising *)
+Lemma segs_old_wrong_mode : forall free (x : K),
+  snd (run_segs_old free (@empty K) [[EMeas [1] [[x]]]; [EUse (Meas 0)]]) = [Ok (S x)]
   /\ snd (run_seg free (@empty K) (concat [[EMeas [1] [[x]]]; [EUse (Meas 0)]])) = [ParamErr].
 Proof. intros. split; reflexivity. Qed.
 
